@@ -238,6 +238,9 @@ impl Monitor {
                     }
                     Host::WriteBlock { multi, buf: Vec::with_capacity(514) }
                 } else if multi && mosi == 0xFD {
+                    if self.card_busy {
+                        self.bad("busy/stop-token-while-card-signals-busy", "stop token sent while the card holds the line low".into());
+                    }
                     self.in_multi_write = false;
                     self.busy_phase = true;
                     Host::Idle
